@@ -634,8 +634,9 @@ def specials(rng):
     decls.append({"decl": "int total_length(const std::vector<std::string> &names)"})
     # an overload set in which a char pointer converts to the wrong candidate unless the wrapper rebuilds the std::string itself
     decls += [{"decl": "int label(const std::string &name)"}, {"decl": "int label(bool flag)"}]
+    decls += [{"decl": "int labelv(std::string name)"}, {"decl": "int labelv(bool flag)"}]          # the same with the string passed by value
     mdecls = [{"decl": "int addmul(int a, int b = 2)"}]
-    hpp = ["int total_length(const std::vector<std::string> &names);", "int label(const std::string &name);", "int label(bool flag);",
+    hpp = ["int total_length(const std::vector<std::string> &names);", "int label(const std::string &name);", "int label(bool flag);", "int labelv(std::string name);", "int labelv(bool flag);",
            "int defs(int a, int b = 10, int c = 100);", "double defd(double x, double y = 0.0);",
            "void eq_trace_twice(double v);",
            "template<typename T> T twice(T v) { eq_trace_twice((double)v); return (T)(v + v); }",
@@ -655,6 +656,8 @@ def specials(rng):
            'int total_length(const std::vector<std::string> &names) { std::cout << "callee total_length("; int t = 0; '
            'for (size_t i = 0; i < names.size(); ++i) { std::cout << "[" << names[i] << "]"; t += (int)names[i].size(); } std::cout << ")\\n"; return t; }',
            'int label(const std::string &name) { std::cout << "callee label(string [" << name << "])\\n"; return 100 + (int)name.size(); }',
+           'int labelv(std::string name) { std::cout << "callee labelv(string [" << name << "])\\n"; return 200 + (int)name.size(); }',
+           'int labelv(bool flag) { std::cout << "callee labelv(bool " << (flag ? 1 : 0) << ")\\n"; return flag ? 3 : 2; }',
            'int label(bool flag) { std::cout << "callee label(bool " << (flag ? 1 : 0) << ")\\n"; return flag ? 1 : 0; }',
            'int Thing::addmul(int a, int b) { std::cout << "callee Thing::addmul(" << a << "," << b << ")\\n"; return (v + a) * b; }']
 
@@ -693,6 +696,8 @@ def specials(rng):
     lab = rng.choice(["abc", "", "q r"])
     direct += dshow("label_s", "label(std::string(%s))" % cstr(lab)) + dshow("label_b", "label(true)")
     cdrv += dshow("label_s", "EQ_label_0(%s)" % cstr(lab)) + dshow("label_b", "EQ_label_1(true)")
+    direct += dshow("labelv_s", "labelv(std::string(%s))" % cstr(lab)) + dshow("labelv_b", "labelv(false)")
+    cdrv += dshow("labelv_s", "EQ_labelv_0((char *)%s)" % cstr(lab)) + dshow("labelv_b", "EQ_labelv_1(false)")
     direct += dshow("tlen", "total_length(std::vector<std::string>{%s})" % ", ".join(cstr(x) for x in sv))
     cdrv += dshow("tlen", "EQ_total_length_bufferify(%s, %d, %d)" % (cstr("".join(x.ljust(svw) for x in sv)), len(sv), svw))
     fdecl += ["    character(len=%d) :: sp_sv(%d)" % (svw, len(sv))]
@@ -726,6 +731,8 @@ def specials(rng):
               "    do sp_i = 1, size(sp_p1)", "        call eq_double(sp_p1(sp_i))", "    end do", "    call eq_end()"]
     fbody += ["    sp_i = label(%s)" % fstr(lab)] + fshow("label_s", f_show("int", "sp_i"))
     fbody += ["    sp_i = label(.true.)"] + fshow("label_b", f_show("int", "sp_i"))
+    fbody += ["    sp_i = labelv(%s)" % fstr(lab)] + fshow("labelv_s", f_show("int", "sp_i"))
+    fbody += ["    sp_i = labelv(.false.)"] + fshow("labelv_b", f_show("int", "sp_i"))
     fbody += ["    sp_sv(%d) = %s" % (k + 1, fstr(x.ljust(svw))) for k, x in enumerate(sv)]
     fbody += ["    sp_i = total_length(sp_sv)"] + fshow("tlen", f_show("int", "sp_i"))
     return {"decls": decls, "mdecls": mdecls, "hpp": hpp, "hmeth": hmeth, "cpp": cpp, "direct": direct, "c": cdrv, "f_decl": fdecl, "f_body": fbody}
